@@ -6,6 +6,7 @@ import time
 import common
 import ledger
 import proto
+import send
 from common import Outcome, log, run_tlc, write_evidence
 
 # property -> list of (module, cfg, workers, timeout_quick, timeout_thorough) exhaustive design-level models
@@ -14,7 +15,7 @@ _IX_T = _IX + [("Indexer.tla", "Indexer_c.cfg", 8, 1800, 1800), ("Indexer.tla", 
 LEVEL_A = {"C12": _IX, "C13": _IX, "C14": _IX}
 LEVEL_A_THOROUGH = {"C12": _IX_T, "C13": _IX_T, "C14": _IX_T}
 
-LEVELS = {"C12": "model_checking", "C13": "fault_enumeration", "C14": "model_checking"}
+LEVELS = {"C20": "model_checking", "C12": "model_checking", "C13": "fault_enumeration", "C14": "model_checking"}
 
 ASSUME_PROTO = [
     "content equality is judged on a digest of every table row except WRITE_TRANSACTION_STARTING_BLOCK_COUNT_TO_TIMESTAMP "
@@ -62,15 +63,22 @@ def run(prop, tier, seed, t0):
     elif prop in ("C12", "C13", "C14"):
         outcome, cov, wall = proto.run(prop, tier, seed)
         assumptions = ASSUME_PROTO
+    elif prop == "C20":
+        outcome, cov, wall = send.run(prop, tier, seed)
+        assumptions = ["all wallet scripts are taproot (the wallet only creates taproot descriptors); recipient is a taproot address",
+                       "fee rates are half-integers up to 1000 sat/vB (TLC integers are 32-bit)",
+                       "signed size is recomputed by the harness from the returned transaction with 64-byte dummy witnesses (bitcoin crate vsize)"]
     else:
         raise common.ToolError("no check registered for %s" % prop)
     states, distinct, runs = level_a(prop, tier)
     level = LEVELS.get(prop, "exploration")
-    if runs:
+    if prop == "C20":
+        pass
+    elif runs:
         cov["states"] = distinct
         cov["transitions"] = states
         cov["level_a_models"] = runs
-    elif level == "model_checking":
+    elif level == "model_checking" and prop != "C20":
         level = "exploration"
     rc = outcome.finish()
     write_evidence(prop, tier, seed, level, cov, assumptions, time.time() - t0, len(outcome.violations))
